@@ -162,12 +162,19 @@ Lemma rtu_fifo_size_fixed_witness :
   length (deliveries (rtu_feed cfg_client rtu_init [[1; 24; 1; 0]; f; f; f; f])) = 2%nat.
 Proof. cbv zeta. split; vm_compute; reflexivity. Qed.
 
-(* ... but the extent can still be 65 541 bytes (hi byte 0xFF): far more than two maximum frames *)
+(* ... but the 16-bit byte count is still taken at face value.  A conformant Read FIFO Queue response
+   carries at most 31 registers: byte count <= 2 + 2 * 31 = 64, frame <= 70 bytes.  Garbage "11 18 01 D7"
+   (byte count 471) makes the receiver wait for 477 bytes, "01 18 FF FF" for 65 541: valid frames behind it
+   pile up, and when the extent is finally reached the CRC fails and the whole buffer - including the
+   complete valid frames in it - is dropped *)
 Lemma rtu_fifo_extent_witness :
   let f := spec_adu_rtu 1 [3; 2; 0; 7] in
+  frame_size (lookup_rule client_decoder 24) [17; 24; 0; 64] = Ok 70%Z /\
+  frame_size (lookup_rule client_decoder 24) [17; 24; 1; 215] = Ok 477%Z /\
   frame_size (lookup_rule client_decoder 24) [1; 24; 255; 255] = Ok 65541%Z /\
   deliveries (rtu_feed cfg_client rtu_init [[1; 24; 255; 255]; f; f; f; f]) = [] /\
-  length (r_buf (fst (fst (rtu_feed cfg_client rtu_init [[1; 24; 255; 255]; f; f; f; f])))) = 32%nat.
+  length (r_buf (fst (fst (rtu_feed cfg_client rtu_init [[1; 24; 255; 255]; f; f; f; f])))) = 32%nat /\
+  deliveries (rtu_feed cfg_client rtu_init ([17; 24; 1; 215] :: repeat f 70)) = repeat ([3; 2; 0; 7], 1%Z) 2.
 Proof. cbv zeta. repeat split; vm_compute; reflexivity. Qed.
 
 (* RTU (FIXED in /repo): several frames per read are all consumed by that read: no backlog *)
